@@ -38,14 +38,18 @@ struct Cfg20 {
     /// source alphabet is then reduced to appends and deletions of the first element (deeper, narrower)
     #[serde(default)]
     sibling: bool,
+    /// alphabet level of the source edits (1: two-unit inserts and two-unit range deletes)
+    #[serde(default)]
+    level: u8,
 }
 
 fn bounds(tier: Tier) -> Vec<Cfg20> {
-    let c = |kind, depth, gc| Cfg20 { kind, depth, gc, sibling: false };
-    let cs = |kind, depth, gc| Cfg20 { kind, depth, gc, sibling: true };
+    let c = |kind, depth, gc| Cfg20 { kind, depth, gc, sibling: false, level: 0 };
+    let cl = |kind, depth, gc| Cfg20 { kind, depth, gc, sibling: false, level: 1 };
+    let cs = |kind, depth, gc| Cfg20 { kind, depth, gc, sibling: true, level: 0 };
     match tier {
-        Tier::Quick => vec![c('a', 4, true), c('t', 4, true), c('m', 4, true), cs('t', 6, true), cs('a', 6, true)],
-        Tier::Thorough => vec![c('a', 5, true), c('t', 5, false), c('m', 6, true), cs('t', 7, true), cs('a', 7, false)],
+        Tier::Quick => vec![c('a', 4, true), c('t', 4, true), c('m', 4, true), cs('t', 6, true), cs('a', 6, true), cl('t', 4, true)],
+        Tier::Thorough => vec![c('a', 5, true), c('t', 5, false), c('m', 6, true), cs('t', 7, true), cs('a', 7, false), cl('t', 4, false), cl('a', 4, true)],
     }
 }
 
@@ -57,6 +61,8 @@ struct Q {
     /// what the author asked for, as tags of the visible elements at quoting time
     requested: Vec<String>,
     resolved: bool,
+    /// right after quoting, both boundaries sat on block edges of the quoting replica (it cut them itself)
+    cut_at_quote: bool,
 }
 
 struct W20 {
@@ -267,7 +273,7 @@ impl W20 {
                 Some((j, false)) => *j as usize,
             };
             let requested = if from <= to && to <= tags.len() { tags[from..to].to_vec() } else { Vec::new() };
-            self.q = Some(Q { lo: lo.map(|(_, incl)| ((0, 0), incl)), hi: hi.map(|(_, incl)| ((0, 0), incl)), spec: format!("{:?}..{:?}", lo, hi), requested, resolved: false });
+            self.q = Some(Q { lo: lo.map(|(_, incl)| ((0, 0), incl)), hi: hi.map(|(_, incl)| ((0, 0), incl)), spec: format!("{:?}..{:?}", lo, hi), requested, resolved: false, cut_at_quote: false });
           }
         }
         self.w.step(a).map_err(|e| {
@@ -301,6 +307,7 @@ impl W20 {
                     h.0 = id;
                 }
                 q.resolved = true;
+                q.cut_at_quote = !boundary_inside_block(&self.w.reps[*r], q);
                 let got = deref(&self.w.reps[*r], kind, &wk);
                 if got != q.requested {
                     { let __e: (String, String) = (if boundary_inside_block(&self.w.reps[*r], q) { "dereference-differs:boundary-inside-block".into() } else { "quotation-differs-from-requested-range".into() },
@@ -335,7 +342,11 @@ impl W20 {
             if let Some(want) = self.expected(rep, kind) {
                 if got != want {
                     { let __e: (String, String) = (
-                        if self.q.as_ref().map(|q| boundary_inside_block(rep, q)).unwrap_or(false) { "dereference-differs:boundary-inside-block".into() } else { "dereference-differs".into() },
+                        if self.q.as_ref().map(|q| boundary_inside_block(rep, q)).unwrap_or(false) {
+                            // the replica that made the quotation cut its blocks at the boundaries itself and protects the
+                            // cut with the linked flag: there a boundary inside a block means the protection was lost
+                            if i == 0 && self.q.as_ref().map(|q| q.cut_at_quote).unwrap_or(false) { "dereference-differs:boundary-cut-lost-on-the-quoting-replica".into() } else { "dereference-differs:boundary-inside-block".into() }
+                        } else { "dereference-differs".into() },
                         format!(
                             "replica {} after {:?}: quotation {} dereferences to {:?} but the elements between its boundaries are {:?} (source {})",
                             i,
@@ -570,9 +581,9 @@ fn enabled(c: &Cfg20, w: &W20, nlocal: usize) -> Vec<Act> {
             }
             kind => {
                 let fam = if kind == 't' { Fam::Txt } else { Fam::Arr };
-                for op in gen_ops(fam, &st, k, 0) {
-                    if c.sibling {
-                        // narrow source alphabet: append at the end, delete the first element
+                for op in gen_ops(fam, &st, k, c.level) {
+                    if c.sibling || c.level >= 1 {
+                        // narrow source alphabet: append at the end, delete the first element (level 1: any range)
                         let keep = match &op {
                             Op::TIns { i, .. } | Op::AIns { i, .. } => {
                                 let len = match st.get(&src_root(kind)) {
@@ -582,7 +593,7 @@ fn enabled(c: &Cfg20, w: &W20, nlocal: usize) -> Vec<Act> {
                                 };
                                 *i == len
                             }
-                            Op::TDel { i, .. } | Op::ADel { i, .. } => *i == 0,
+                            Op::TDel { i, .. } | Op::ADel { i, .. } => *i == 0 || c.level >= 1,
                             _ => false,
                         };
                         if !keep || r != 0 {
@@ -691,7 +702,7 @@ fn dfs(ctx: &mut Ctx, c: &Cfg20, trace: &mut Vec<Act>, nlocal: usize, visited: &
         }
     }
     // every delivery order of the final pool to a fresh replica
-    if !c.sibling && (w.q.is_some() || c.kind == 'm') && w.w.pool.len() >= 2 && w.w.pool.len() <= 6 && pools.insert(w.w.pool_key()) {
+    if !c.sibling && c.level == 0 && (w.q.is_some() || c.kind == 'm') && w.w.pool.len() >= 2 && w.w.pool.len() <= 6 && pools.insert(w.w.pool_key()) {
         ctx.count("pools", 1);
         let pool = w.w.pool.clone();
         let gc = c.gc;
